@@ -49,7 +49,11 @@ fn level_args(tag: &str, short_base: u8) -> Vec<ArgSpec> {
     ov.parser = Vp::Pv(vec![PvSpec { name: format!("ovone{}", tag), ..Default::default() }, PvSpec { name: format!("ovtwo{}", tag), ..Default::default() }]);
     let mut hid = ArgSpec::flag(&format!("h{}", tag), None, Some(&format!("lhidden{}", tag)));
     hid.hide = true;
-    vec![f, o, ov, hid]
+    // an option with a value hint; the hint varies with the level so that all are exercised
+    const HINTS: [&str; 11] = ["FilePath", "DirPath", "AnyPath", "ExecutablePath", "CommandName", "CommandString", "Username", "Hostname", "Url", "EmailAddress", "Other"];
+    let mut hv = ArgSpec::opt(&format!("hint{}", tag), None, Some(&format!("lhint{}", tag)));
+    hv.value_hint = Some(HINTS[(tag.bytes().map(|b| b as usize).sum::<usize>() + short_base as usize) % HINTS.len()].to_string());
+    vec![f, o, ov, hid, hv]
 }
 
 struct Tree {
@@ -58,7 +62,7 @@ struct Tree {
 }
 
 fn trees(thorough: bool) -> Vec<Tree> {
-    let child_names = ["saa", "sb-c", "sd_e", "sb"];
+    let child_names = ["saa", "sb-c", "sd_e", "sb", "s__x"];
     let mut out = vec![];
     for set in subsets_upto(child_names.len(), child_names.len()) {
         if set.is_empty() {
@@ -66,7 +70,7 @@ fn trees(thorough: bool) -> Vec<Tree> {
         }
         for nested in [false, true] {
             for pos in [false, true] {
-                if !thorough && pos && set.len() > 2 {
+                if !thorough && ((pos && set.len() > 2) || set.len() > 3) {
                     continue;
                 }
                 let mut root = CmdSpec::new("prog");
@@ -479,8 +483,7 @@ fn main() {
     par_blocks(ts.len(), |bi, _| {
         let t = &ts[bi];
         if let Err(p) = build_valid(&t.spec) {
-            rep.violation(Violation { cause: format!("tree rejected by the validity gate: {}", p.key()), order: (bi as u64, 0), what: p.show(), case: json!({"spec": t.spec.to_json()}) });
-            return;
+            rep.machinery(&format!("tree [{}] rejected by the validity gate: {}", t.name, p.show()));
         }
         let mut h = Hist::new();
         let tag = format!("t{}", bi);
